@@ -40,6 +40,9 @@ extern void    user_bcopy      (char *, char *, int);
 #define StackFull(x)         ( x + Glu->stack.used >= Glu->stack.size )
 #define NotDoubleAlign(addr) ( (intptr_t)addr & 7 )
 #define DoubleAlign(addr)    ( ((intptr_t)addr + 7) & ~7L )	
+/* Bytes skipped at the start of a user-supplied work[], so that the arrays
+   placed in it, which may hold 64-bit integers, start at an 8-byte boundary. */
+#define WorkSkip(work)       ( (int_t) ((char*)DoubleAlign(work) - (char*)(work)) )
 #define TempSpace(m, w)      ( (2*w + 4 + NO_MARKER) * m * sizeof(int) + \
 			      (w + 1) * m * sizeof(doublecomplex) )
 #define Reduce(alpha)        ((alpha + 1) / 2)  /* i.e. (alpha-1)/2 + 1 */
@@ -60,9 +63,9 @@ void zSetupSpace(void *work, int_t lwork, GlobalLU_t *Glu)
 	Glu->MemModel = USER;   /* user provided space */
 	Glu->stack.used = 0;
 	Glu->stack.top1 = 0;
-	Glu->stack.top2 = (lwork/4)*4; /* must be word addressable */
+	Glu->stack.top2 = ((lwork - WorkSkip(work))/4)*4; /* must be word addressable */
 	Glu->stack.size = Glu->stack.top2;
-	Glu->stack.array = (void *) work;
+	Glu->stack.array = (char *) work + WorkSkip(work);
     }
 }
 
@@ -322,7 +325,7 @@ zLUMemInit(fact_t fact, void *work, int_t lwork, int m, int n, int_t annz,
 	    Glu->MemModel = SYSTEM;
 	} else {
 	    Glu->MemModel = USER;
-	    Glu->stack.top2 = (lwork/4)*4; /* must be word-addressable */
+	    Glu->stack.top2 = ((lwork - WorkSkip(work))/4)*4; /* must be word-addressable */
 	    Glu->stack.size = Glu->stack.top2;
 	}
 	
